@@ -698,6 +698,7 @@ class Executor:
         self.unresolved = []  # (name, lineno) loaded names that resolve nowhere (C17)
         self.attr_fail = []  # (expr text, lineno) attribute walks on concrete objects that fail
         self.nonraising = set()  # callee keys assumed not to raise
+        self.nonraising_prefixes = ()
         self.assume_hasattr = False  # precondition: receivers conform to their annotations
         self.inline = {}  # function name -> (FunctionDef, namespace, binds_first: 'cls'|'self'|None)
         self.inline_depth = 0
@@ -1509,6 +1510,7 @@ class Executor:
             raise NotInSubset("inlining depth", node)
         sub = Executor(self.eng, ns, hooks=self.hooks)
         sub.nonraising = self.nonraising
+        sub.nonraising_prefixes = self.nonraising_prefixes
         sub.assume_hasattr = self.assume_hasattr
         sub.inline = self.inline
         sub.inline_depth = self.inline_depth + 1
@@ -1562,7 +1564,9 @@ class Executor:
         """uninterpreted pure call: may raise (raises!f(args)), returns call!f(args)"""
         eng = self.eng
         label = self.ghost_calls.get(key)
-        if key not in self.nonraising:
+        quiet = key in self.nonraising or (isinstance(key, tuple) and len(key) == 2 and key[0] == "meth"
+                                           and any(str(key[1]).startswith(p) for p in self.nonraising_prefixes))
+        if not quiet:
             r = eng.raises_pred(key, name, args, kw)
             et = eng.exc_term(key, name, args, kw)
             eng.axioms_once = getattr(eng, "axioms_once", set())
